@@ -3,8 +3,10 @@ package transaction
 import (
 	"context"
 
+	"github.com/tikv/client-go/v2/config/retry"
 	tikverr "github.com/tikv/client-go/v2/error"
 	"github.com/tikv/client-go/v2/tikvrpc"
+	"github.com/tikv/client-go/v2/txnkv/txnlock"
 )
 
 // C03 — truthful Commit result. The real KVTxn.Commit (2PC / async commit /
@@ -24,6 +26,7 @@ type zzScenario struct {
 	err     error
 	// timestamps the oracle had issued before Commit was called
 	issuedBefore []uint64
+	foreign      *txnlock.LockResolver
 }
 
 func zzIsCommitPoint(mode int, r zzRPC) bool {
@@ -55,6 +58,23 @@ func zzRunCommit(mode int, faults int, keys []string) *zzScenario {
 	}
 	sc.startTS = txn.StartTS()
 	sc.cl.primary, sc.cl.startTS = []byte(keys[0]), sc.startTS
+	// the foreign client: a second, real LockResolver over the same store whose
+	// clock considers our locks expired although the committer is still running
+	foreign := txnlock.NewLockResolver(sc.s)
+	sc.foreign = foreign
+	sc.cl.lockExpired = true
+	sc.cl.realResolver = func(key []byte) {
+		ks := sc.cl.key(key)
+		if ks.lock == nil {
+			return
+		}
+		l := txnlock.NewLock(zzKeyErrLocked(ks).Locked)
+		sc.s.orc.expired = true
+		bo := retry.NewBackofferWithVars(context.Background(), 1000, nil)
+		caller, _ := sc.s.orc.GetTimestamp(context.Background(), nil)
+		_, _ = foreign.ResolveLocks(bo, caller, []*txnlock.Lock{l})
+		sc.s.orc.expired = false
+	}
 	// another transaction obtains a timestamp before Commit is called
 	sc.s.orc.GetTimestamp(context.Background(), nil)
 	sc.issuedBefore = append([]uint64(nil), sc.s.orc.issued...)
@@ -63,7 +83,12 @@ func zzRunCommit(mode int, faults int, keys []string) *zzScenario {
 	return sc
 }
 
-func (sc *zzScenario) close() { sc.s.close() }
+func (sc *zzScenario) close() {
+	if sc.foreign != nil {
+		sc.foreign.Close()
+	}
+	sc.s.close()
+}
 
 // committed: 2PC/1PC — the primary carries a commit record; async commit —
 // additionally, before the primary is committed, every key is prewritten and
